@@ -18,6 +18,18 @@ package obiconvert
 // about three buffers, several hundred KiB in many batches). Oracle: a run in which a write is
 // certain to have failed must end with a non-zero exit status. Every command is first run on a
 // regular file: it must succeed with a non-empty result (otherwise the case proves nothing).
+//
+// Added by the audit: the command-level wrappers that no case drove (c18cliCase.Mode)
+//
+//	default          obiconvert without any --xxx-output: WriteSequencesToFile / WriteSequencesToStdout
+//	                 (universal writer), FASTQ and FASTA input
+//	paired-R1|R2     obiconvert --paired-with: CLIWriteBioSequences -> BuildPairedFileNames ->
+//	                 WritePairedReadsTo; ONE of the two files fails (symlink to /dev/full or FIFO
+//	                 placed at the derived name), the other is a regular file
+//	distribute[-append]  obidistribute -c sample -p d_%s.fastq [-A]: WriterDispatcher +
+//	                 Write{Sequences,Fasta,Fastq}ToFile; one of the three files fails
+//	save-discarded   obigrep --save-discarded: second output written by a goroutine of its own
+//	auto             obicsv --auto (auto-column mode)
 
 import (
 	"bytes"
@@ -42,6 +54,7 @@ type c18cliCase struct {
 	Input  string `json:"input"` // small medium large
 	Dest   string `json:"dest"`  // devfull-file devfull-stdout fifo
 	K      int    `json:"k"`     // fifo: bytes read before the read end is closed
+	Mode   string `json:"mode,omitempty"` // "" default paired-R1 paired-R2 distribute distribute-append save-discarded auto
 }
 
 func (c c18cliCase) String() string {
@@ -50,6 +63,9 @@ func (c c18cliCase) String() string {
 		z = "gzip"
 	}
 	s := fmt.Sprintf("%s %s:%s input=%s dest=%s", c.Tool, c.Format, z, c.Input, c.Dest)
+	if c.Mode != "" {
+		s = fmt.Sprintf("%s[%s] %s:%s input=%s dest=%s", c.Tool, c.Mode, c.Format, z, c.Input, c.Dest)
+	}
 	if c.Dest == "fifo" {
 		s += fmt.Sprintf("@%d", c.K)
 	}
@@ -92,6 +108,77 @@ func c18cliInput(path string, n, l int) {
 	if err := os.WriteFile(path, b.Bytes(), 0o644); err != nil {
 		panic(err)
 	}
+}
+
+// c18cliInput2 writes, next to <base>.fastq, the files used by the added modes: <base>_s.fastq and
+// <base>_s.fasta (same reads with a sample annotation A/B/C in turn) and <base>_r2.fastq (mates).
+func c18cliInput2(base string, n, l int) {
+	var fq, fa, r2 bytes.Buffer
+	for i := 0; i < n; i++ {
+		seq := c18cliDNA(l, uint32(i+1))
+		fmt.Fprintf(&fq, "@read%05d {\"sample\":\"%c\"}\n%s\n+\n%s\n", i+1, "ABC"[i%3], seq, strings.Repeat("I", l))
+		fmt.Fprintf(&fa, ">read%05d {\"sample\":\"%c\"}\n%s\n", i+1, "ABC"[i%3], seq)
+		fmt.Fprintf(&r2, "@read%05d\n%s\n+\n%s\n", i+1, c18cliDNA(l, uint32(i+100001)), strings.Repeat("H", l))
+	}
+	for suf, b := range map[string]*bytes.Buffer{"_s.fastq": &fq, "_s.fasta": &fa, "_r2.fastq": &r2} {
+		if err := os.WriteFile(base+suf, b.Bytes(), 0o644); err != nil {
+			panic(err)
+		}
+	}
+}
+
+// c18cliPlan gives, for the cases with a Mode, the arguments of the command and the path of the
+// output file that is made to fail (victim). in is the path of <input>.fastq, dir a scratch
+// directory owned by the case.
+func c18cliPlan(c c18cliCase, in, dir string) (args []string, victim string) {
+	base := strings.TrimSuffix(in, ".fastq")
+	ann := base + "_s.fastq"
+	if c.Format == "default-fa" {
+		ann = base + "_s.fasta"
+	}
+	common := []string{"--no-progressbar", "--batch-size", "50"}
+	if c.Gzip {
+		common = append(common, "-Z")
+	}
+	fmtopt := func() []string {
+		if strings.HasPrefix(c.Format, "default") {
+			return nil
+		}
+		return []string{"--" + c.Format + "-output"}
+	}
+	ext := map[string]string{"fasta": "fasta", "fastq": "fastq", "json": "json", "default-fq": "fastq", "default-fa": "fasta", "csv": "csv"}[c.Format]
+	switch c.Mode {
+	case "default":
+		victim = filepath.Join(dir, "out."+ext)
+		args = common
+		if c.Dest != "devfull-stdout" {
+			args = append(args, "-o", victim)
+		}
+		args = append(args, ann)
+	case "paired-R1", "paired-R2":
+		victim = filepath.Join(dir, "o_"+c.Mode[len("paired-"):]+"."+ext)
+		args = append(append(fmtopt(), common...), "--paired-with", base+"_r2.fastq", "-o", filepath.Join(dir, "o."+ext), in)
+	case "distribute", "distribute-append":
+		victim = filepath.Join(dir, "d_B."+ext)
+		if c.Gzip {
+			victim += ".gz"
+		}
+		args = append(append(fmtopt(), common...), "-c", "sample", "-p", filepath.Join(dir, "d_%s."+ext))
+		if c.Mode == "distribute-append" {
+			args = append(args, "-A")
+		}
+		args = append(args, ann)
+	case "save-discarded":
+		victim = filepath.Join(dir, "discarded."+ext)
+		args = append(append(fmtopt(), common...), "-p", `annotations.sample=="A"`, "--save-discarded", victim,
+			"-o", filepath.Join(dir, "kept."+ext), ann)
+	case "auto":
+		victim = filepath.Join(dir, "out.csv") // control only: obicsv writes on its standard output
+		args = append(common, "--auto", "-i", "-s", ann)
+	default:
+		panic("c18: unknown mode " + c.Mode)
+	}
+	return args, victim
 }
 
 func c18cliArgs(c c18cliCase, in, out string) []string {
@@ -178,6 +265,10 @@ const (
 // full (or the command ended) and closes the read end. It returns the capacity of the FIFO and
 // whether the FIFO was seen full (a write of the command was then pending or still to come).
 func c18cliFifo(bin string, c c18cliCase, in, fifo string) (res c18cliRes, capacity int, full bool, err error) {
+	return c18cliFifoArgs(bin, c18cliArgs(c, in, fifo), fifo, c.K)
+}
+
+func c18cliFifoArgs(bin string, args []string, fifo string, K int) (res c18cliRes, capacity int, full bool, err error) {
 	os.Remove(fifo)
 	if err = syscall.Mkfifo(fifo, 0o600); err != nil {
 		return
@@ -202,7 +293,7 @@ func c18cliFifo(bin string, c c18cliCase, in, fifo string) (res c18cliRes, capac
 	if capacity, err = c18fcntl(rd, c18FGetPipeSz, 0); err != nil {
 		return
 	}
-	cmd := exec.Command(bin, c18cliArgs(c, in, fifo)...)
+	cmd := exec.Command(bin, args...)
 	var errb bytes.Buffer
 	cmd.Stderr = &errb
 	cmd.Stdout = nil
@@ -226,7 +317,7 @@ func c18cliFifo(bin string, c c18cliCase, in, fifo string) (res c18cliRes, capac
 	// 1. consume exactly k bytes
 	got := 0
 	buf := make([]byte, 4096)
-	for got < c.K {
+	for got < K {
 		ev, _ := c18poll(rd, c18PollIn, 20)
 		if ev&c18PollIn == 0 {
 			if !alive() {
@@ -234,7 +325,7 @@ func c18cliFifo(bin string, c c18cliCase, in, fifo string) (res c18cliRes, capac
 			}
 			continue
 		}
-		want := c.K - got
+		want := K - got
 		if want > len(buf) {
 			want = len(buf)
 		}
@@ -290,7 +381,7 @@ func TestVerifC18CLI(t *testing.T) {
 	defer os.RemoveAll(work)
 
 	bins := map[string]string{}
-	for _, tool := range []string{"obiconvert", "obicsv"} {
+	for _, tool := range []string{"obiconvert", "obicsv", "obidistribute", "obigrep"} {
 		out := filepath.Join(work, "bin", tool)
 		cmd := exec.Command("go", "build", "-o", out, "./cmd/obitools/"+tool)
 		cmd.Dir = root
@@ -306,7 +397,25 @@ func TestVerifC18CLI(t *testing.T) {
 	for name, nl := range map[string][2]int{"small": {3, 30}, "medium": {60, 80}, "large": {2500, 100}} {
 		p := filepath.Join(work, name+".fastq")
 		c18cliInput(p, nl[0], nl[1])
+		c18cliInput2(strings.TrimSuffix(p, ".fastq"), nl[0], nl[1])
 		inputs[name] = p
+	}
+	caseDir := filepath.Join(work, "case")
+	freshDir := func() string {
+		os.RemoveAll(caseDir)
+		os.MkdirAll(caseDir, 0o755)
+		return caseDir
+	}
+	defer os.RemoveAll(caseDir)
+	runCmd := func(bin string, args []string, stdout *os.File) c18cliRes {
+		cmd := exec.Command(bin, args...)
+		var errb bytes.Buffer
+		cmd.Stderr = &errb
+		cmd.Stdout = stdout
+		if err := cmd.Start(); err != nil {
+			t.Fatal(err)
+		}
+		return c18cliWait(cmd, &errb, 120*time.Second)
 	}
 	r.Bound("cli_inputs", "FASTQ files of 3x30 bp, 60x80 bp, 2500x100 bp; --batch-size 50")
 	r.Bound("cli_destinations", "-o /dev/full; stdout on /dev/full; -o FIFO closed by its reader after k bytes once the FIFO is full")
@@ -319,8 +428,37 @@ func TestVerifC18CLI(t *testing.T) {
 	}
 	controls := map[string]ctl{}
 	control := func(c c18cliCase) ctl {
-		key := fmt.Sprintf("%s/%s/%v/%s", c.Tool, c.Format, c.Gzip, c.Input)
+		key := fmt.Sprintf("%s/%s/%v/%s/%s", c.Tool, c.Format, c.Gzip, c.Input, c.Mode)
+		if c.Mode == "default" && c.Dest == "devfull-stdout" {
+			key += "/stdout"
+		}
 		if v, ok := controls[key]; ok {
+			return v
+		}
+		if c.Mode != "" {
+			// fault-free run of the same command line: exit 0 and a non-empty victim file
+			dir := freshDir()
+			args, victim := c18cliPlan(c, inputs[c.Input], dir)
+			var f *os.File
+			if c.Mode == "auto" || (c.Mode == "default" && c.Dest == "devfull-stdout") {
+				var err error
+				if f, err = os.Create(victim); err != nil {
+					t.Fatal(err)
+				}
+			}
+			res := runCmd(bins[c.Tool], args, f)
+			if f != nil {
+				f.Close()
+			}
+			v := ctl{}
+			st, _ := os.Stat(victim)
+			if res.status == 0 && st != nil && st.Size() > 0 {
+				v = ctl{ok: true, size: int(st.Size())}
+			} else {
+				v.why = fmt.Sprintf("status %d, victim file %v, stderr %q", res.status, st != nil, res.stderr)
+			}
+			controls[key] = v
+			r.Count("cli_control_runs", 1)
 			return v
 		}
 		out := filepath.Join(work, "control.out")
@@ -362,6 +500,42 @@ func TestVerifC18CLI(t *testing.T) {
 		}
 		var res c18cliRes
 		certain := false
+		if c.Mode != "" {
+			dir := freshDir()
+			args, victim := c18cliPlan(c, inputs[c.Input], dir)
+			switch c.Dest {
+			case "devfull-file":
+				// the victim is reached through its (possibly derived) name: a symlink to /dev/full
+				if err := os.Symlink("/dev/full", victim); err != nil {
+					t.Fatal(err)
+				}
+				res = runCmd(bins[c.Tool], args, nil)
+				certain = true
+			case "devfull-stdout":
+				f, err := os.OpenFile("/dev/full", os.O_WRONLY, 0)
+				if err != nil {
+					t.Fatal(err)
+				}
+				res = runCmd(bins[c.Tool], args, f)
+				f.Close()
+				certain = true
+			case "fifo":
+				var capacity int
+				var full bool
+				var err error
+				res, capacity, full, err = c18cliFifoArgs(bins[c.Tool], args, victim, c.K)
+				if err != nil {
+					t.Fatalf("c18: fifo set-up failed: %v", err)
+				}
+				certain = full && ct.size > c.K+capacity+4096
+				if !certain {
+					r.Count("cli_fifo_runs_without_certain_failure", 1)
+				}
+			}
+			if certain {
+				r.Count("cli_mode_"+c.Mode+"_certain_failures", 1)
+			}
+		} else {
 		switch c.Dest {
 		case "devfull-file":
 			cmd := exec.Command(bins[c.Tool], c18cliArgs(c, inputs[c.Input], "/dev/full")...)
@@ -402,11 +576,16 @@ func TestVerifC18CLI(t *testing.T) {
 				r.Count("cli_fifo_runs_without_certain_failure", 1)
 			}
 		}
+		}
 		r.Eval(1)
 		r.Trans(1)
 		r.State(fmt.Sprintf("%s|%d", c, res.status))
+		site := c.Format
+		if c.Mode != "" {
+			site = c.Tool + "[" + c.Mode + "]/" + c.Format
+		}
 		if res.timeout {
-			r.Violate(fmt.Sprintf("cli/%s:%s/hang", c.Format, map[bool]string{false: "plain", true: "gzip"}[c.Gzip]),
+			r.Violate(fmt.Sprintf("cli/%s:%s/hang", site, map[bool]string{false: "plain", true: "gzip"}[c.Gzip]),
 				fmt.Sprintf("%s: the command did not end within 120 s", c), c)
 			return
 		}
@@ -422,7 +601,7 @@ func TestVerifC18CLI(t *testing.T) {
 		if c.Gzip {
 			z = "gzip"
 		}
-		r.Violate(fmt.Sprintf("cli/%s:%s/exit0", c.Format, z),
+		r.Violate(fmt.Sprintf("cli/%s:%s/exit0", site, z),
 			fmt.Sprintf("%s (result of %d bytes on a regular file): a write(2) of the command failed but the exit status is 0 (fatal/error message on stderr: %v)",
 				c, ct.size, strings.Contains(res.stderr, "level=fatal") || strings.Contains(res.stderr, "level=error")), c)
 	}
@@ -472,6 +651,93 @@ func TestVerifC18CLI(t *testing.T) {
 				}
 			}
 		}
+	}
+	// ---- command-level wrappers that the cases above do not reach
+	thor := verifkit.Thorough()
+	fifoK2 := []int{0, 20000}
+	if thor {
+		fifoK2 = []int{0, 1, 4095, 4096, 4097, 8192, 20000, 40000}
+	}
+	var extra []c18cliCase
+	both := func(c c18cliCase, dests ...string) {
+		for _, gz := range []bool{false, true} {
+			for _, in := range sizes {
+				for _, d := range dests {
+					cc := c
+					cc.Gzip, cc.Input, cc.Dest = gz, in, d
+					extra = append(extra, cc)
+				}
+			}
+			for _, kk := range fifoK2 {
+				if c.Mode == "auto" {
+					break // standard output only
+				}
+				cc := c
+				cc.Gzip, cc.Input, cc.Dest, cc.K = gz, "large", "fifo", kk
+				extra = append(extra, cc)
+			}
+		}
+	}
+	for _, f := range []string{"default-fq", "default-fa"} {
+		both(c18cliCase{Tool: "obiconvert", Mode: "default", Format: f}, "devfull-file", "devfull-stdout")
+	}
+	for _, f := range []string{"fastq", "fasta", "json", "default-fq"} {
+		for _, m := range []string{"paired-R1", "paired-R2"} {
+			both(c18cliCase{Tool: "obiconvert", Mode: m, Format: f}, "devfull-file")
+		}
+	}
+	for _, f := range []string{"default-fq", "default-fa", "fasta", "fastq"} {
+		for _, m := range []string{"distribute", "distribute-append"} {
+			both(c18cliCase{Tool: "obidistribute", Mode: m, Format: f}, "devfull-file")
+		}
+	}
+	for _, f := range []string{"default-fq", "fasta"} {
+		both(c18cliCase{Tool: "obigrep", Mode: "save-discarded", Format: f}, "devfull-file")
+	}
+	both(c18cliCase{Tool: "obicsv", Mode: "auto", Format: "csv"}, "devfull-stdout")
+	r.Bound("cli_added_modes", fmt.Sprintf("%d runs: obiconvert default format (file, stdout), obiconvert --paired-with (R1 | R2 failing) x {fastq,fasta,json,default}, obidistribute [-A] (file of sample B failing) x {default,fasta,fastq}, obigrep --save-discarded, obicsv --auto; x {plain,-Z} x %v x {/dev/full through a symlink at the derived name, FIFO closed after k in %v}", len(extra), sizes, fifoK2))
+	// armed only once this section is reached (a run stopped earlier by its deadline is "not exhaustive")
+	for _, m := range []string{"default", "paired-R1", "paired-R2", "distribute", "distribute-append", "save-discarded", "auto"} {
+		r.RequireNonVacuous("cli_mode_" + m + "_certain_failures")
+	}
+	for _, c := range extra {
+		if r.Mine(k) {
+			eval(c)
+		}
+		k++
+		if r.Expired() {
+			return
+		}
+	}
+	// ---- observation only (never a violation): commands whose CSV / JSON result is NOT produced by one
+	// of the four writers of the quantifier (fmt.Print on os.Stdout). Their exit status on a full
+	// device is recorded as a counter and a note, so that the evidence shows what the check leaves out.
+	for _, tool := range []string{"obicount", "obisummary"} {
+		if r.Mine(k) {
+			bin := filepath.Join(work, "bin", tool)
+			cmd := exec.Command("go", "build", "-o", bin, "./cmd/obitools/"+tool)
+			cmd.Dir = root
+			if b, err := cmd.CombinedOutput(); err != nil {
+				r.Note("observation skipped: cannot build %s: %v %s", tool, err, b)
+			} else {
+				ctlf, _ := os.Create(filepath.Join(work, "obs.out"))
+				c0 := runCmd(bin, []string{inputs["small"]}, ctlf)
+				ctlf.Close()
+				st, _ := os.Stat(filepath.Join(work, "obs.out"))
+				f, err := os.OpenFile("/dev/full", os.O_WRONLY, 0)
+				if err != nil {
+					t.Fatal(err)
+				}
+				res := runCmd(bin, []string{inputs["small"]}, f)
+				f.Close()
+				r.Count("cli_outside_quantifier_runs", 1)
+				if c0.status == 0 && st != nil && st.Size() > 0 && res.status == 0 {
+					r.Count("cli_outside_quantifier_exit0", 1)
+					r.Note("outside the quantifier (not one of the four writers): `%s small.fastq > /dev/full` exits 0 although none of its %d result bytes was written", tool, st.Size())
+				}
+			}
+		}
+		k++
 	}
 	r.Sample(c18cliCase{Tool: "obiconvert", Format: "fasta", Input: "small", Dest: "devfull-file"})
 }
